@@ -18,7 +18,13 @@ _last_range = []
 
 
 def brute_min(sorted_data, lag):
-    return float(np.min(sorted_data[lag:] - sorted_data[:sorted_data.size - lag]))
+    d = sorted_data
+    if d.dtype.kind in "iu":
+        # exact for every integer dtype: the true width of a sorted pair lies in [0, 2^64), so the difference of the two's-complement
+        # images modulo 2^64 IS the width (int8 data spanning more than 127, int64 timestamps, uint64 above 2^63 alike)
+        u = d.astype(np.int64).view(np.uint64) if d.dtype.kind == "i" else d.astype(np.uint64)
+        return int(np.min(u[lag:] - u[:u.size - lag]))
+    return float(np.min(d[lag:] - d[:d.size - lag]))
 
 
 def setup(ctx):
@@ -45,7 +51,9 @@ def setup(ctx):
                 msg = f"shortest_int returned {core.jsonable(r)}"
                 if ok and 0 <= lag < d.size:
                     lo, hi = rr
-                    rng_ = max(d[-1] - d[0], np.finfo(float).tiny)
+                    if exact_int and rr.dtype.kind in "iu":
+                        lo, hi = rr.astype(d.dtype) if np.all(rr.astype(d.dtype) == rr) else rr      # compared in the data's own dtype (np.searchsorted of int8 data with an int64 key is still exact)
+                    rng_ = max(float(d[-1]) - float(d[0]), np.finfo(float).tiny)
                     if not lo <= hi:
                         ok, msg = False, f"shortest_int returned lo={lo!r} > hi={hi!r}"
                     else:
@@ -56,8 +64,9 @@ def setup(ctx):
                             ok, msg = False, f"shortest_int({d.size} samples, {percent}%): ({lo!r},{hi!r}) are not two order statistics lag={lag} apart"
                         else:
                             best = brute_min(d, lag)
-                            if (hi - lo) - best > 1e-12 * rng_:
-                                ok, msg = False, f"shortest_int({d.size} samples, {percent}%): returned width {hi - lo!r}, a pair lag={lag} apart is closer: {best!r}"
+                            width = int(hi) - int(lo) if exact_int and rr.dtype.kind in "iu" else hi - lo       # python integers: no wrap-around
+                            if (width > best) if isinstance(width, int) else (width - best > 1e-12 * rng_):
+                                ok, msg = False, f"shortest_int({d.size} samples of {d.dtype}, {percent}%): returned ({lo!r}, {hi!r}) of width {width!r}, a pair lag={lag} apart is closer: {best!r}"
                     _last_range.append((float(lo), float(hi)))
                 ctx.check("si.post", ok, msg, n=d.size, percent=percent, lag=lag)
             return r
@@ -206,6 +215,12 @@ def w_shortest(ctx, rng, i):
         d = rng.integers(-20, 20, n).astype(float)
         if i % 12 == 3:        # integer dtype, values beyond 2**53 (nanosecond timestamps): "two data values" means these integers, not their float neighbours
             d = (rng.integers(0, 40, n) * int(rng.choice([1, 5, 7])) + 1_700_000_000_000_000_003).astype(np.int64)
+        elif i % 12 == 9:      # quantised data in its native integer carrier, using the carrier's whole range (an int16 capture at full scale, uint64 counters above 2^63):
+            dt = np.dtype(str(rng.choice(["int8", "int16", "int32", "int64", "uint8", "uint16", "uint32", "uint64"])))       # widths beyond the signed maximum must not wrap
+            info = np.iinfo(dt)
+            levels = rng.integers(info.min, info.max, int(rng.integers(2, 40)), dtype=dt, endpoint=True)
+            d = levels[rng.integers(0, levels.size, n)]
+            ctx.bin("si.int_carrier", str(dt))
     elif kind == "tiny_scale":
         d = rng.normal(0, 1, n) * 10 ** rng.uniform(-13, -10)
     else:
